@@ -27,8 +27,8 @@ from .sched import Scheduler, count_steps
 
 OPS = ["ensure_kid", "thumbprint", "as_dict_pub", "as_dict", "keyset_new", "get_kid", "sign", "sign2", "sign_ks", "verify", "verify2", "encrypt", "encrypt2", "decrypt", "decrypt2",
        "decrypt_zip", "decrypt_zip_over", "verify_forged", "ks_export", "ks_verify", "ks_sign",
-       "sign_raw", "verify_raw_unlisted", "reg_ecdh", "reg_foreign_name"]
-CRYPTO = {"sign", "sign2", "sign_ks", "verify", "verify2", "encrypt", "encrypt2", "decrypt", "decrypt2", "decrypt_zip", "decrypt_zip_over", "verify_forged", "ks_export", "ks_verify", "ks_sign", "sign_raw", "verify_raw_unlisted", "reg_ecdh", "reg_foreign_name"}
+       "sign_raw", "verify_raw_unlisted", "reg_ecdh", "reg_foreign_name", "sigkey_view", "sigkey_misuse", "pem_plain", "pem_password"]
+CRYPTO = {"sign", "sign2", "sign_ks", "verify", "verify2", "encrypt", "encrypt2", "decrypt", "decrypt2", "decrypt_zip", "decrypt_zip_over", "verify_forged", "ks_export", "ks_verify", "ks_sign", "sign_raw", "verify_raw_unlisted", "reg_ecdh", "reg_foreign_name", "sigkey_view", "sigkey_misuse"}
 ZIP_SMALL = b"compressed plaintext " * 40
 ZIP_OVER = 256_000 + 300
 _ZTOK: dict = {}
@@ -41,7 +41,12 @@ def zip_tokens(kind, jalg, jwk):
                        R.jwe_compact(R.jwe_encrypt({"alg": jalg, "enc": "A128GCM", "zip": "DEF"}, b"over the limit " * (ZIP_OVER // 15 + 1), [{"jwk": jwk}])))
     return _ZTOK[kind]
 LAZY = set(OPS)
-JWE_OPS = ("encrypt", "decrypt", "encrypt2", "decrypt2", "decrypt_zip", "decrypt_zip_over")
+# operations that touch the same shared object(s)
+GROUPS = [{"ensure_kid", "thumbprint", "as_dict_pub", "as_dict", "keyset_new", "get_kid", "sign", "sign2", "decrypt", "pem_plain", "pem_password"},
+          {"sign", "sign2", "sign_ks", "verify", "verify2", "verify_forged", "sign_raw", "verify_raw_unlisted", "ks_sign", "ks_verify"},
+          {"encrypt", "encrypt2", "decrypt", "decrypt2", "decrypt_zip", "decrypt_zip_over", "reg_ecdh", "reg_foreign_name", "sigkey_misuse"},
+          {"ks_export", "ks_verify", "ks_sign", "sign_ks"}, {"sigkey_view", "sigkey_misuse"}]
+JWE_OPS = ("encrypt", "decrypt", "encrypt2", "decrypt2", "decrypt_zip", "decrypt_zip_over", "sigkey_misuse")
 
 
 class World:
@@ -62,6 +67,11 @@ class World:
             ppem = native.public_key().public_bytes(S.Encoding.PEM, S.PublicFormat.SubjectPublicKeyInfo)
             self.key = JWKRegistry.import_key(pem, self.jwk["kty"])
             self.pub = JWKRegistry.import_key(ppem, self.jwk["kty"])
+        # the same material as a key that declares use=sig through import parameters (its JWK view is built lazily as well)
+        if self.jwk["kty"] == "oct":
+            self.sigkey = JWKRegistry.import_key(R.b64d(self.jwk["k"]), "oct", {"use": "sig", "key_ops": ["sign", "verify"]})
+        else:
+            self.sigkey = JWKRegistry.import_key(ppem, self.jwk["kty"], {"use": "sig", "key_ops": ["verify"]})
         self.thumb = R.thumbprint(self.jwk)
         self.alg = {"EC:P-256": "ES256", "RSA2048": "RS256", "OKP:Ed25519": "EdDSA", "oct256": "HS256"}[kind]
         self.key2 = J.fresh_jkey(K.get(kind, 1))
@@ -130,6 +140,19 @@ class World:
                     return ("unlisted", rfc7797.deserialize_compact(w.token_raw, w.pub, algorithms=[w.other_alg]).payload)
                 except UnsupportedAlgorithmError:
                     return ("unlisted", None)
+        elif name == "sigkey_view":
+            def f(): return ("thumb", w.sigkey.thumbprint())
+        elif name == "sigkey_misuse":
+            def f():        # a key declared for signatures is offered for encryption: refused, whoever else touches the key meanwhile
+                from joserfc.errors import UnsupportedKeyUseError, UnsupportedKeyOperationError
+                try:
+                    return ("misuse", jwe.encrypt_compact({"alg": w.jalg, "enc": "A128GCM"}, b"plaintext", w.sigkey, algorithms=[w.jalg, "A128GCM"]))
+                except (UnsupportedKeyUseError, UnsupportedKeyOperationError):
+                    return ("misuse", None)
+        elif name == "pem_plain":
+            def f(): return ("pem", w.key.as_pem(private=True) if w.jwk["kty"] != "oct" else b"")
+        elif name == "pem_password":
+            def f(): return ("pem_pw", w.key.as_pem(private=True, password="s3cret") if w.jwk["kty"] != "oct" else None)
         elif name == "reg_ecdh":
             def f(): return ("jwe_reg", jwe.encrypt_compact({"alg": "ECDH-ES+A128KW", "enc": "A128GCM", "apu": "QWxpY2U"}, b"plaintext", w.reg_ec, registry=w.reg))
         elif name == "reg_foreign_name":
@@ -203,6 +226,21 @@ class World:
             except Exception as e:  # noqa
                 return f"produced token does not decrypt: {e}"
         if kind == "plaintext": return None if v == b"secret plaintext" else "decrypted plaintext differs"
+        if kind == "pem":
+            return None if (v == b"" or b"PRIVATE KEY" in v) else "private PEM export differs"
+        if kind == "pem_pw":
+            if v is None: return None
+            from cryptography.hazmat.primitives.serialization import load_pem_private_key
+            try:
+                load_pem_private_key(v, None)
+                return "a password-protected export can be loaded without the password"
+            except Exception:  # noqa
+                pass
+            try:
+                load_pem_private_key(v, b"s3cret"); return None
+            except Exception as e:  # noqa
+                return f"password-protected export does not load with its password: {type(e).__name__}"
+        if kind == "misuse": return None if v is None else "a key declared use=sig was accepted for encryption"
         if kind == "foreign": return None if v is None else "a header name of another algorithm family was accepted under strict checking"
         if kind == "jwe_reg":
             try:
@@ -374,7 +412,7 @@ def explore(args):
     from .common import _pool_init
     _pool_init()
     w = World(kind)
-    na, nb = count_steps(w.op(a)), count_steps(World(kind).op(b))
+    na, nb = max(1, count_steps(w.op(a))), max(1, count_steps(World(kind).op(b)))     # (an operation that does not apply to the key kind has no steps)
     found = []
     n = 0
     rnd = random.Random(f"{seed}-{a}-{b}")
@@ -475,6 +513,8 @@ def run(ctx: Ctx) -> None:
     for kind in kinds:
         for i, a in enumerate(OPS):
             for b in OPS[i:]:
+                if not thorough and not any(a in g and b in g for g in GROUPS):
+                    continue              # quick: pairs of operations that share no object (key view, algorithm models / registries, key set) are left to the stress and history passes
                 # pairs of cryptographic operations share algorithm models and registries: every line; others every 3rd line
                 stride = 1 if thorough or (a in CRYPTO and b in CRYPTO) else 3
                 pairs.append((kind, a, b, stride, ctx.seed, 40 if thorough else 6))
